@@ -192,39 +192,39 @@ func (o *poolObs) pendingAt(t uint64) (n int) {
 
 // ---------------------------------------------------------------- structural pattern of a pool's goroutines
 
-// poolPattern describes where the pool's own goroutines sit. No rule depends
-// on an unexported hive.go identifier: a pool goroutine is one the harness did
-// not create whose outermost frame lies in package workerpool; a task body is
-// recognised by the harness' own closure frame (main.*); the dispatcher by the
-// exported operations only it performs (Stack.PopOrWait, Counter.WaitIsZero /
-// WaitIsBelow, IsRunning outside a task) or by its `chan send`; idle workers by
-// their goroutine state (select = reading, chan receive = draining).
+// poolPattern describes where the pool's own goroutines sit. No rule depends on
+// an unexported hive.go identifier NOR on the primitive a goroutine waits on:
+//   - a pool goroutine is one the harness did not create whose outermost frame lies in package workerpool;
+//   - it is "in a task" if the harness' own task closure (main.*) is on its stack;
+//   - the dispatcher is recognised, where possible, by the EXPORTED operations only it performs
+//     (Stack.PopOrWait, Counter.WaitIsZero/WaitIsBelow, IsRunning outside a task) while it is parked in ANY
+//     blocking wait (gdump.Parked); this only chooses descriptive labels / fingerprints;
+//   - every verdict uses counts only: pool goroutines in total, in tasks, idle (neither).
+//
+// Whether a park is permanent is decided by the model and by structural quiescence, never by the primitive.
 type poolPattern struct {
-	Dispatcher string // gone | WaitIsBelow | PopOrWait.Wait | PopOrWait.gate | IsRunning.RLock | chan send
-	Shutdown   int    // workers draining the dispatch channel after the shutdown signal (chan receive)
-	ReadLoop   int    // idle workers selecting on shutdown signal / dispatch channel
+	Dispatcher string // gone (no pool goroutine left) | unidentified | WaitIsBelow | PopOrWait.Wait | PopOrWait.gate | IsRunning.RLock
+	Idle       int    // parked pool goroutines that are neither in a task nor identified as dispatcher
 	InTask     int    // workers inside a harness task closure
-	Other      int    // pool goroutines in any other place (running, runnable, ...)
-	NDisp      int    // number of dispatcher goroutines identified (several pools)
-	StartWaits bool   // a goroutine sits in WorkerPool.Start -> ShutdownComplete.Wait
-	RLockers   int    // goroutines parked in WorkerPool.IsRunning on the pool mutex
+	Other      int    // pool goroutines that are not parked (running, runnable, ...)
+	NDisp      int    // dispatcher goroutines identified (several pools)
+	StartWaits bool   // a goroutine is parked inside WorkerPool.Start
+	RLockers   int    // goroutines parked inside WorkerPool.IsRunning
 }
 
 func (p poolPattern) String() string {
-	s := fmt.Sprintf("dispatcher=%s workers{handleShutdown:%d readLoop:%d inTask:%d}", p.Dispatcher, p.Shutdown, p.ReadLoop, p.InTask)
+	s := fmt.Sprintf("dispatcher=%s workers{idle:%d inTask:%d}", p.Dispatcher, p.Idle, p.InTask)
 	if p.Other > 0 {
 		s += fmt.Sprintf(" other:%d", p.Other)
 	}
 	if p.StartWaits {
-		s += fmt.Sprintf(" Start()=in ShutdownComplete.Wait; %d goroutine(s) parked in IsRunning().RLock", p.RLockers)
+		s += fmt.Sprintf(" Start()=parked; %d goroutine(s) parked in IsRunning()", p.RLockers)
 	}
 	return s
 }
 
 // total number of pool goroutines identified.
-func (p poolPattern) total() int {
-	return p.Shutdown + p.ReadLoop + p.InTask + p.Other + p.NDisp
-}
+func (p poolPattern) total() int { return p.Idle + p.InTask + p.Other + p.NDisp }
 
 func idSet(gs []gdump.G) map[uint64]bool {
 	m := make(map[uint64]bool, len(gs))
@@ -256,10 +256,11 @@ func patternOf(gs []gdump.G, before map[uint64]bool) poolPattern {
 		if before != nil && before[g.ID] {
 			continue
 		}
-		if g.Has(pkgWP+"(*WorkerPool).Start") && g.Has("sync.(*WaitGroup).Wait") {
+		parked := trulyParked(g)
+		if parked && g.Has(pkgWP+"(*WorkerPool).Start") {
 			p.StartWaits = true
 		}
-		if g.Has(pkgWP+"(*WorkerPool).IsRunning") && strings.HasPrefix(g.State, "sync.RWMutex") {
+		if parked && g.Has(pkgWP+"(*WorkerPool).IsRunning") {
 			p.RLockers++
 		}
 		if !isPoolGoroutine(g) {
@@ -271,35 +272,33 @@ func patternOf(gs []gdump.G, before map[uint64]bool) poolPattern {
 			p.NDisp++
 		case inHarnessTask(g):
 			p.InTask++
+		case !parked:
+			p.Other++
 		case g.Has(pkgSU + "(*Counter).WaitIsZero"), g.Has(pkgSU + "(*Counter).WaitIsBelow"):
 			p.Dispatcher = "WaitIsBelow"
 			p.NDisp++
-		case g.Has("(*Stack[...]).PopOrWait") && g.State == "sync.Cond.Wait":
+		case g.Has("(*Stack[...]).PopOrWait"):
 			p.Dispatcher = "PopOrWait.Wait"
 			p.NDisp++
-		case g.Has(pkgWP+"(*WorkerPool).IsRunning") && strings.HasPrefix(g.State, "sync.RWMutex"):
+		case g.Has(pkgWP + "(*WorkerPool).IsRunning"):
 			p.Dispatcher = "IsRunning.RLock"
 			p.NDisp++
-		case g.State == "chan send":
-			p.Dispatcher = "chan send"
-			p.NDisp++
-		case g.State == "select":
-			p.ReadLoop++
-		case g.State == "chan receive":
-			p.Shutdown++
 		default:
-			p.Other++
+			p.Idle++
 		}
+	}
+	if p.Dispatcher == "gone" && p.total() > 0 {
+		p.Dispatcher = "unidentified"
 	}
 	return p
 }
 
 // blind reports why the structural rules do not see a freshly started, idle
-// pool the way they must (one dispatcher waiting for work, all workers idle);
+// pool the way they must (workers+1 parked pool goroutines, none in a task);
 // "" if they do. A run in which they do not is INCONCLUSIVE, never a violation.
 func blind(p poolPattern, workers int) string {
-	if !strings.HasPrefix(p.Dispatcher, "PopOrWait") || p.ReadLoop != workers || p.total() != workers+1 {
-		return fmt.Sprintf("structural rules identify %q instead of 1 dispatcher in PopOrWait + %d idle workers right after Start (hive.go internals changed shape?)", p.String(), workers)
+	if p.total() != workers+1 || p.InTask != 0 || p.Other != 0 || p.NDisp > 1 {
+		return fmt.Sprintf("structural rules identify %q instead of %d parked pool goroutines (1 dispatcher + %d idle workers) right after Start (hive.go internals changed shape?)", p.String(), workers+1, workers)
 	}
 	return ""
 }
@@ -408,11 +407,8 @@ func classify(o outcome) []finding {
 func patternKey(p poolPattern) string {
 	var parts []string
 	parts = append(parts, "d="+p.Dispatcher)
-	if p.Shutdown > 0 {
-		parts = append(parts, "hs")
-	}
-	if p.ReadLoop > 0 {
-		parts = append(parts, "rl")
+	if p.Idle > 0 {
+		parts = append(parts, "idle")
 	}
 	if p.InTask > 0 {
 		parts = append(parts, "task")
